@@ -200,7 +200,7 @@ def oracle(ctx, kind, case, out):
         if isinstance(v, Err):
             fail("schedule could not be replayed: " + v.text, i)
             return F
-        lock, wtxn, wevent, waiters, setev, ids, readers, newest, pcs, enabled, failed = v
+        lock, wtxn, wevent, waiters, setev, ids, readers, newest, pcs, enabled, failed = v[:11]
         codes = [p[0] for p in pcs]
         t = sched[i]
         # at most one open write transaction
